@@ -571,3 +571,31 @@ def falsy_numeric_default(ctx, modules, rule="LINT-i"):
           ctx.bad(rule, f"{ctx.ix.scope_name(m, node)}|{short(node, 60)}", ctx.where(m, node),
                   f"`{short(node, 70)}` uses `or` to supply a default for a number: the value 0 is replaced as well (a legitimate 0 - transparent alpha, zero offset - becomes {short(node.values[-1], 20)})")
   return n
+
+
+# (j) -------------------------------------------------------------------------------------
+_ITEM_ERRORS = {"KeyError", "ValueError", "IndexError", "LookupError", "TypeError", "AttributeError"}
+
+
+def handler_around_loop(ctx, modules, rule="LINT-j"):
+  """`try: for x in items: ...  except KeyError: log` - the handler tolerates a bad item, but because
+  it sits around the loop the first bad item also ends the processing of every item after it.  Flagged
+  when the try body is (ends with) a loop, the handler names an item-level error class and neither
+  re-raises nor returns / breaks out on purpose."""
+  n = 0
+  for m in _iter_modules(ctx, modules):
+    for node in ast.walk(m.tree):
+      if not isinstance(node, ast.Try) or not node.body or not isinstance(node.body[-1], (ast.For, ast.While)):
+        continue
+      if any(not isinstance(st, (ast.For, ast.While, ast.Assign, ast.AnnAssign)) for st in node.body):
+        continue
+      for h in node.handlers:
+        names = {unparse(t).split(".")[-1] for t in (h.type.elts if isinstance(h.type, ast.Tuple) else [h.type])} if h.type is not None else set()
+        if not (names & _ITEM_ERRORS):
+          continue
+        if any(isinstance(x, (ast.Raise, ast.Return, ast.Break)) for st in h.body for x in ast.walk(st)):
+          continue
+        n += 1
+        ctx.bad(rule, f"{ctx.ix.scope_name(m, node)}|except {', '.join(sorted(names))} around `{short(node.body[-1], 40)}`", ctx.where(m, h),
+                f"the handler for {', '.join(sorted(names))} encloses the whole loop: the first item that raises ends the loop, and the items after it are silently not processed")
+  return n
